@@ -19,7 +19,7 @@ import (
 	"pgregory.net/rapid"
 )
 
-func TestMain(m *testing.M)   { fdkit.InstallLogger(); vkit.Main(m) }
+func TestMain(m *testing.M)   { c19.CapMemory(); fdkit.InstallLogger(); vkit.Main(m) }
 func TestReplay(t *testing.T) { vkit.Replay(t) }
 
 // VerifC19Case: a config and successive batches produced through the same worker data.
@@ -182,7 +182,7 @@ func verifC19Run(c VerifC19Case) *vkit.Outcome {
 						nontrivial = true
 						o.Class("hostile-topic-value")
 					}
-					if r.Topic != wt {
+					if c19.NormUTF8(r.Topic) != c19.NormUTF8(wt) { // the model tree was parsed by encoding/json, which replaces invalid UTF-8
 						o.Failf(c19.P, "kafka:wrong-topic", "%s: event %s: record topic %q, want %q (use_topic_field=%v, field %q)", what, id, c19.Clip(r.Topic), c19.Clip(wt), c.UseTopicField, c.TopicField)
 						break
 					}
